@@ -120,3 +120,21 @@ def mods():
             _proxy = omit.ToolsProxy(tools)
         return functions, parsing, _proxy, classes, errors
     return functions, parsing, tools, classes, errors
+
+
+# Roomy but NON-DEFAULT limit triples (stack_max_items, stack_max_item_size,
+# callstack_limit): every script the signature / builder checks run needs far
+# fewer than 64 items, items of at most ~1000 bytes and fewer than 128 calls,
+# so verdicts must be the same under each of them. Chosen by a hash of the
+# scripts, so that a replay takes the same triple.
+ROOMY_LIMITS = ((1024, 1024, 128), (64, 1024, 128), (1024, 2048, 128),
+                (300, 1100, 300), (2000, 1024, 500), (96, 4096, 128))
+
+
+def roomy_limits(*blobs) -> dict:
+    h = hashlib.blake2b(digest_size=2)
+    for b in blobs:
+        h.update(bytes(b))
+    mi, ms, lim = ROOMY_LIMITS[h.digest()[0] % len(ROOMY_LIMITS)]
+    return {'stack_max_items': mi, 'stack_max_item_size': ms,
+            'callstack_limit': lim}
